@@ -13,6 +13,7 @@ import (
 
 	"github.com/cloudwego/hertz/pkg/app"
 	"github.com/cloudwego/hertz/pkg/app/middlewares/server/recovery"
+	"github.com/cloudwego/hertz/pkg/common/config"
 	"github.com/cloudwego/hertz/pkg/protocol"
 	pclient "github.com/cloudwego/hertz/pkg/protocol/client"
 	"github.com/cloudwego/hertz/pkg/protocol/http1"
@@ -32,7 +33,7 @@ func init() {
 			"client side: hostile responses (mutated, truncated, reset) read by the real HostClient incl. redirects, Set-Cookie and Location parsing; only panics and hangs are judged there",
 			"a parse-level rejection is recognised as: last response on the connection is 400/413/408, no handler ran for it and Engine.Serve returned a non-nil error",
 		},
-		RequiredProbes: []string{"mut-flip", "mut-insert", "mut-delete", "mut-dup", "mut-token", "truncate", "rst", "rejected", "too-large", "too-large-multipart", "too-large-chunked", "hostile-chunk-size", "fs-route", "multipart", "cookie", "trailer", "recovery-engine", "default-engine", "client-side"},
+		RequiredProbes: []string{"mut-flip", "mut-insert", "mut-delete", "mut-dup", "mut-token", "truncate", "rst", "rejected", "too-large", "too-large-multipart", "too-large-chunked", "hostile-chunk-size", "fs-route", "multipart", "cookie", "trailer", "recovery-engine", "default-engine", "client-side", "huge-body", "router-mode", "route-request", "forwarded-prefix", "redirected"},
 	}
 }
 
@@ -144,13 +145,31 @@ func mutate(tp *core.Tape, ep *core.Episode, stream []byte, bounds []int) ([]byt
 
 func RunC03(ep *core.Episode) {
 	tp := ep.Tape
-	if ep.Param("client") != "off" && tp.Chance("client-side", 1, 4) {
+	// one draw selects the scenario; the values 0..3 keep the meaning they had when this was a 1-in-4
+	// chance (recorded witness tapes): 3 = client side; 4, 5 = server with a static route table
+	side := tp.Choose("side", 10)
+	if ep.Param("client") != "off" && (side == 3 || side == 6 || side == 7 || side == 9) {
 		runC03Client(ep)
 		return
 	}
+	router := ep.Param("router") != "off" && (side == 4 || side == 5)
+	huge := side == 8 // default body limit and one body beyond the transport's 512 KiB buffer-recycling threshold
 	o := SrvOpts{BufSize: tp.Pick("bufsize", 4096, 8192)}
+	if router {
+		// the engine's own handling of paths that match no route exactly: trailing-slash and
+		// fixed-path redirects clean the request path and the peer's X-Forwarded-Prefix
+		fixed, extra, raw := tp.Choose("fixedpath", 2) == 1, tp.Choose("extraslash", 2) == 1, tp.Choose("rawpath", 2) == 1
+		o.Configure = func(opts *config.Options) {
+			opts.RedirectFixedPath, opts.RemoveExtraSlash, opts.UseRawPath = fixed, extra, raw
+		}
+		ep.Probe("router-mode")
+	}
 	o.Stream = tp.Chance("stream", 1, 3)
 	o.MaxBody = 3000
+	if huge {
+		o.MaxBody = 4 << 20
+		ep.Probe("huge-body")
+	}
 	withRecovery := tp.Choose("recovery", 2) == 1
 	if withRecovery {
 		ep.Probe("recovery-engine")
@@ -218,7 +237,14 @@ func RunC03(ep *core.Episode) {
 		ctx.SetStatusCode(200)
 		ctx.Response.SetBodyString(fmt.Sprintf("probe %d", handled))
 	}
-	srv.Eng.Any("/*any", probe)
+	if router {
+		for _, r := range []string{"/tsr/", "/tsr/sub/", "/Fix/Path", "/plain", "/p/:id/", "/w/*rest"} {
+			srv.Eng.GET(r, probe)
+			srv.Eng.POST(r, probe)
+		}
+	} else {
+		srv.Eng.Any("/*any", probe)
+	}
 	srv.Eng.NoRoute(probe)
 	srv.Start()
 
@@ -282,9 +308,53 @@ func RunC03(ep *core.Episode) {
 				m.ChunkSizes = splitChunks(tp, len(m.Body))
 				ep.Probe("too-large-chunked")
 			}
-			if len(m.Body) > 3000 && tooLargeAt < 0 {
+			if len(m.Body) > 3000 && tooLargeAt < 0 && !huge {
 				tooLargeAt = i
 				ep.Probe("too-large")
+			}
+		}
+		if huge && i == 0 {
+			m = &wire.Msg{Proto: "HTTP/1.1", Method: "POST", Target: "/huge", Headers: []wire.Header{{K: "Host", V: "example.com"}}}
+			m.Body = core.PatternBytes(7, tp.Pick("hugesz", 600000, 524287, 524288, 524289, 1<<20))
+			if tp.Choose("hugechunked", 3) == 1 {
+				m.Chunked = true
+				m.ChunkSizes = []int{len(m.Body) / 2, len(m.Body) - len(m.Body)/2}
+			}
+			tooLargeAt = -1
+		}
+		if router && tp.Chance("route-req", 2, 3) {
+			// a request that matches no route exactly; lengths sit around CleanPath's 128-byte stack buffer
+			ep.Probe("route-request")
+			if tooLargeAt == i {
+				tooLargeAt = -1 // the request drawn above is replaced
+			}
+			lens := []int{0, 1, 2, 3, 126, 127, 128, 129, 130, 255, 256, 257, 1000}
+			junk := func(n, style int) string {
+				unit := []string{"a", "ab/", "../", "x//", "./y/", "%2e/"}[style%6]
+				var sb strings.Builder
+				for sb.Len() < n {
+					sb.WriteString(unit)
+				}
+				return sb.String()[:n]
+			}
+			targets := []string{"/tsr", "/tsr/sub", "/fix/path", "/FIX/Path/", "/plain/", "//tsr", "/a/../tsr", "/p/7", "/w", "LONG", "LONG"}
+			tgt := targets[tp.Choose("rtarget", len(targets))]
+			if tgt == "LONG" {
+				tgt = "/" + junk(lens[tp.Choose("plen", len(lens))], tp.Choose("pstyle", 6))
+			}
+			m = &wire.Msg{Proto: "HTTP/1.1", Method: []string{"GET", "POST"}[tp.Choose("rmeth", 2)], Target: tgt + []string{"", "?q=1"}[tp.Choose("rquery", 2)], NoFraming: true}
+			m.Headers = []wire.Header{{K: "Host", V: "example.com"}}
+			if tp.Chance("fwdprefix", 2, 3) {
+				v := junk(lens[tp.Choose("fplen", len(lens))], tp.Choose("fpstyle", 6))
+				if tp.Choose("fpslash", 2) == 1 {
+					v = "/" + v
+				}
+				m.Headers = append(m.Headers, wire.Header{K: "X-Forwarded-Prefix", V: v})
+				ep.Probe("forwarded-prefix")
+			}
+			if m.Method == "POST" {
+				m.NoFraming = false
+				m.Body = []byte("x=1")
 			}
 		}
 		// hostile token spliced into a header value / the target
@@ -415,7 +485,17 @@ func RunC03(ep *core.Episode) {
 	}
 	// shape of a parse-level rejection: a response written without the request ever reaching ServeHTTP
 	nresp := len(cl.Resps)
-	if parseLevel := nresp - entered; parseLevel > 0 {
+	redirects := 0
+	if router {
+		// the engine answers these itself, without running the middleware chain
+		for _, r := range cl.Resps {
+			if _, ok := r.Get("Location"); ok && (r.Status == 301 || r.Status == 307 || r.Status == 308) {
+				redirects++
+				ep.Probe("redirected")
+			}
+		}
+	}
+	if parseLevel := nresp - entered - redirects; parseLevel > 0 {
 		ep.Probe("rejected")
 		last := cl.Resps[nresp-1]
 		if parseLevel != 1 {
@@ -435,7 +515,7 @@ func RunC03(ep *core.Episode) {
 			return
 		}
 	} else if parseLevel < 0 && !injectedAbort && conn.Err == nil {
-		ep.Fail("C03.wellformed", "%d requests reached a handler but only %d responses were written", entered, nresp)
+		ep.Fail("C03.wellformed", "%d requests reached a handler but only %d responses were written", entered+redirects, nresp)
 		return
 	}
 	// buffered mode: a body over the limit is always rejected (only judged on unmutated, complete streams)
